@@ -65,8 +65,17 @@ func c03IncludePool() ([]func() j.Resource, []string) {
 	return []func() j.Resource{
 			mk(docT, true, "1"), mk(docT, false, "1"), mk(docT, true, "2"), mk(docU, true, "1"), mk(docU, false, "1"), mk(docU, true, "2"), mk(docT, true, "3"),
 			mk(docT, true, "r03"), mk(docT, true, "r10"),
+			// t/1 again, as a resource whose own type value has the name t but declares a single attribute
+			// (what a partial payload yields): the pair (type name, id) is what counts
+			func() j.Resource {
+				r := &j.SoftResource{}
+				r.SetType(&j.Type{Name: "t", Attrs: map[string]j.Attr{"s": {Name: "s", Type: j.AttrTypeString}}, Rels: map[string]j.Rel{}})
+				r.SetID("1")
+				r.Set("s", "sparse")
+				return r
+			},
 		}, []string{
-			"Include(soft t/1)", "Include(wrapped t/1)", "Include(soft t/2)", "Include(soft u/1)", "Include(wrapped u/1)", "Include(soft u/2)", "Include(soft t/3)", "Include(soft t/r03)", "Include(soft t/r10)",
+			"Include(soft t/1)", "Include(wrapped t/1)", "Include(soft t/2)", "Include(soft u/1)", "Include(wrapped u/1)", "Include(soft u/2)", "Include(soft t/3)", "Include(soft t/r03)", "Include(soft t/r10)", "Include(sparse soft t/1)",
 			// the primary data may still grow (or be assigned) between two Include calls
 			"primary data gains t/3",
 		}
@@ -198,7 +207,7 @@ func init() {
 	}
 	Register(&Prop{
 		ID:          "C03",
-		Rule:        "Engine A: the complete product 19 primary-data kinds (nil, soft/wrapped/escape-needing/ID-less resource, resources with every kind at its extremes, Resources/SoftCollection/WrapperCollection of 0..3, Identifier, Identifiers of 0/2) x 5 included lists x 4 metas x 3 error lists x 6 path prefixes (with / without / with several trailing slashes) x 3 field selections x 2 relationship-data requests; every successful marshal is parsed by an independent JSON:API structure validator (jsonapi member, self link, data xor errors, included only with data, resource-object type/id/self link = prefix+type+id, relationship links and data shape); the returned bytes must still be the same after two other documents were marshaled. Engine B: for 9 primary-data implementations (incl. collections of 12 members in descending / scrambled id order), ALL sequences (depth <= 4 quick / 6 thorough) of Include over 9 resources colliding with primary data, with each other (same pair as a different object / implementation) or with nothing, interleaved with the primary data gaining a resource (collection Add / Data assigned late); after every Include the marshaled document is validated and no type/ID pair may appear twice. Non-trivial = distinct successful output",
+		Rule:        "Engine A: the complete product 19 primary-data kinds (nil, soft/wrapped/escape-needing/ID-less resource, resources with every kind at its extremes, Resources/SoftCollection/WrapperCollection of 0..3, Identifier, Identifiers of 0/2) x 5 included lists x 4 metas x 3 error lists x 6 path prefixes (with / without / with several trailing slashes) x 3 field selections x 2 relationship-data requests; every successful marshal is parsed by an independent JSON:API structure validator (jsonapi member, self link, data xor errors, included only with data, resource-object type/id/self link = prefix+type+id, relationship links and data shape); the returned bytes must still be the same after two other documents were marshaled. Engine B: for 9 primary-data implementations (incl. collections of 12 members in descending / scrambled id order), ALL sequences (depth <= 4 quick / 6 thorough) of Include over 10 resources (one of them t/1 under a sparser type value of the same name) colliding with primary data, with each other (same pair as a different object / implementation) or with nothing, interleaved with the primary data gaining a resource (collection Add / Data assigned late); after every Include the marshaled document is validated and no type/ID pair may appear twice. Non-trivial = distinct successful output",
 		Assumptions: []string{"non-empty type names; a resource without ID must still carry a string id member, but the text of its links is not judged beyond the library's own convention (bare prefix)", "uniqueness applies to resource objects (an identifier in data plus the full resource in included is fine)"},
 		Harnesses:   hs,
 	})
